@@ -1451,6 +1451,12 @@ func (fx *FuncExec) finish() {
 	}
 	fx.curInstr = nil
 	pos := fx.fn.Pos()
+	if fx.V.covers {
+		fx.cover(exit, "a return is reachable under everything assumed on the way (contracts of callees, invariants)", pos)
+		for i, r := range fx.returns {
+			fx.cover(r.st, fmt.Sprintf("return #%d is reachable", i+1), pos)
+		}
+	}
 	// locks still held at return
 	var lks []string
 	for k := range exit.locks {
